@@ -4,15 +4,42 @@ rc_bin("c05_rc", ["harness/c05_span_identity.cc"], lib=True)
 rc_bin("c05_tsan", ["harness/c05_span_identity.cc"], lib=True, san="tsan")
 PROPS["C05"] = dict(
     level_text="Model-based property tests over generated trees of StartSpan/WithActiveSpan/End operations: a parent-resolution "
-               "model (explicit SpanContext > explicit Context > active span; root marker cuts; invalid explicit parent falls back) "
-               "predicts trace id, parent span id, sampled flag, flag bits and trace state of every new span for every built-in "
-               "sampler, a scripted sampler and scripted id generators; exporters confirm that dropped spans are never exported and "
-               "that the recorded parent id is the modelled one. Exploration is the right level for a property over programs/inputs.",
+               "model (explicit SpanContext > explicit Context > active span; root marker cuts; an invalid explicit parent, an "
+               "explicit Context holding a span WITHOUT a valid context, or an invalid / half-valid ACTIVE span give no parent and "
+               "fall through) predicts trace id, parent span id, sampled flag, flag bits and trace state of every new span for "
+               "every built-in sampler, a scripted sampler and a recognisable scripted id generator; the active span may be one "
+               "of the tracer's own spans or a foreign one (DefaultSpan around a generated remote/local context with arbitrary "
+               "flags and trace state, NoopTracer span, span of another provider); exporters confirm that dropped spans are never "
+               "exported and that recorded parent id, trace id, trace flags and trace state are the modelled ones. "
+               "Exploration is the right level for a property over programs/inputs.",
     technique="model-based PBT (parent-resolution and sampling-decision model) over generated span trees; rapidcheck; real threads for the per-thread stack clause; fork for id freshness",
     rule="A case = sampler/id-generator configuration + span tree program(s).",
+    generators="tree_program/tree_threads: sampler (8 kinds x 6 ratios), id generator (random | counter-based custom generator, "
+               "restarted per case); ops StartSpan / Activate (Scope ctor or Tracer::WithActiveSpan) / Deactivate (LIFO) / End / "
+               "nest burst / unwind burst / activate a FOREIGN span (DefaultSpan(valid ctx) | invalid span: DefaultSpan(trace id "
+               "zero | span id zero | all-zero ctx), NoopTracer span, GetSpan(Context{}) | live span of a second provider). "
+               "Parent forms at StartSpan: none, valid SpanContext, invalid SpanContext, Context{own span | DefaultSpan(valid)}, "
+               "Context{root}, Context{}, Context{root=false}, Context{invalid span [+ root marker true/false, either insertion "
+               "order]}, snapshot of RuntimeContext::GetCurrent(). Scripted sampler answer per StartSpan: DROP / RECORD_ONLY / "
+               "RECORD_AND_SAMPLE, trace state not given / given / given-but-empty.",
+    oracle="per StartSpan: context valid and local; span id never handed out before and not the span id of any context that "
+           "entered the program; with a valid modelled parent: parent's trace id, span id != parent's; without: trace id that "
+           "did not appear in the program before (active span's, any explicit parent's, any foreign span's, earlier spans'); "
+           "with the custom id generator every span id / new trace id carries the generator's signature; sampled flag == "
+           "modelled decision; no flag bit beyond 0x01; IsRecording == decision != DROP; trace state == sampler's if given (even "
+           "empty) else parent's else empty; scripted sampler consulted exactly once. At the exporter: every recorded span "
+           "exactly once with the modelled parent span id (zero for a root, also under a half-valid active span), trace id, "
+           "flags (SetTraceFlags and SetIdentity) and trace state; dropped spans never. Activation: GetCurrentSpan() is the "
+           "activated span; release restores the previous one.",
     assumptions=[
         "id freshness is checked as distinctness within a case (and across a fork); the 2^-64 chance of a zero random id is not addressable by search",
-        "a Context carrying both a valid span and the root marker is not generated (the statement does not order the two)",
+        "a Context carrying both a VALID span and the root marker is not generated (the statement does not order the two); a Context "
+        "holding an INVALID span plus the root marker is: it has no valid parent and is marked root, both clauses give a new trace",
+        "'custom id generators': ids of new spans / new traces must be the ones the configured IdGenerator returned (TracerProvider "
+        "constructor contract); the harness generator marks its ids so that this is decidable",
+        "an active span whose context is invalid (all-zero or only one of the two ids non-zero, SpanContext::IsValid()) is 'no valid "
+        "parent': the new span is a root and is exported with an all-zero parent span id",
+        "scopes are released in LIFO order only (the statement says nothing about out-of-order release)",
         "the multi-thread target owns no schedule: it adds evidence only",
         SC_NOTE,
     ],
